@@ -41,7 +41,7 @@ LABELS = {
 
 def r1234_writer(ctx, chk):
     f = ctx.func(SAVE)
-    sx = SymX(ctx, f, inline_depth=3).run()      # helpers (also generators / local functions) are judged by their content
+    sx = SymX(ctx, f, inline_depth=3, unroll_literals=True).run()      # helpers (also generators / local functions / label tables) are judged by their content
     loops = [l for l in sx.loops.values() if l.kind == "for"]
     res_param, fname_param = ("v", f.params[0]), ("v", f.params[1])
     if len(loops) != 1:
